@@ -323,6 +323,90 @@ def reqset_compare(start, dt, n):
     return None
 
 
+# ----------------------------------------------------------------------------- scenario-level run specs (wave 6)
+# (model start, model stop, model dt) and the scenario's overriding run specs; numbers as the user writes them (int / float)
+RUNSPEC_CASES = [
+    (("0", "1", "0.25"), {"dt": 0.1}),
+    (("0", "1", "0.25"), {"dt": 0.5}),
+    (("0", "2", "1"), {"dt": 0.25}),
+    (("0.3", "1.3", "0.1"), {"dt": 0.05}),
+    (("0", "1", "0.25"), {"starttime": 0.5, "stoptime": 2, "dt": 0.5}),
+    (("0", "3", "0.5"), {"starttime": 1, "stoptime": 2}),
+    (("1", "2", "0.1"), {"stoptime": 1.5}),
+    (("0", "4", "0.5"), {"starttime": 1, "stoptime": 3, "dt": 1}),
+    (("0.25", "2.25", "0.5"), {"dt": 0.25, "stoptime": 1.75}),
+    (("0", "1", "0.1"), {"dt": 0.2, "starttime": 0.2}),
+]
+
+
+def rs_effective(mspec, rs):
+    dec = lambda v: dstr(D(repr(v)) if isinstance(v, float) else D(v))
+    return (dec(rs["starttime"]) if "starttime" in rs else mspec[0], dec(rs["stoptime"]) if "stoptime" in rs else mspec[1],
+            dec(rs["dt"]) if "dt" in rs else mspec[2])
+
+
+def ch_runspecs(mspec, rs):
+    """a model built with `mspec`, registered with a scenario that carries the run specs `rs`: the index of the FIRST and
+    of the second run_scenarios, of plot_scenarios(return_df), the session keys (begun without arguments), the TIME column
+    (must equal the labels) and the stock column (Euler with the scenario's dt) — each on its own fresh bptk object where
+    'first' matters."""
+    S, E, H = rs_effective(mspec, rs)
+    n = int((D(E) - D(S)) / D(H))
+    out = {}
+    def frame(df):
+        s = labels(df.index)
+        if "tm" in df and any(fbits(a) != fbits(v) for a, v in zip(df.index, df["tm"])):
+            s += "|TIME=" + labels(df["tm"])
+        if "s" in df:
+            sv, ok = 0.0, True
+            for v in df["s"]:
+                ok = ok and fbits(v) == fbits(sv)
+                sv = sv + float(H) * (1.0)
+            if not ok:
+                s += "|stock=" + labels(df["s"])
+        return s
+    def fresh():
+        b = Bptk()
+        bb = b.__enter__()
+        bb.register_model(build_model(float(mspec[0]), float(mspec[1]), float(mspec[2]), name="r"), scenario_manager="smR",
+                          scenario={"base": {}, "sc": {"runspecs": dict(rs)}})
+        return b, bb
+    b, bb = fresh()
+    try:
+        out["run1"] = frame(bb.run_scenarios(scenario_managers=["smR"], scenarios=["sc"], equations=["s", "tm"], series_names={}))
+        out["run2"] = frame(bb.run_scenarios(scenario_managers=["smR"], scenarios=["sc"], equations=["tm", "s"], series_names={}))
+        out["base"] = frame(bb.run_scenarios(scenario_managers=["smR"], scenarios=["base"], equations=["tm"], series_names={}))
+    finally:
+        b.__exit__()
+    b, bb = fresh()
+    try:
+        out["plot1"] = frame(bb.plot_scenarios(scenario_managers=["smR"], scenarios=["sc"], equations=["tm"], series_names={}, return_df=True))
+    finally:
+        b.__exit__()
+    b, bb = fresh()
+    try:
+        bb.begin_session(scenarios=["sc"], scenario_managers=["smR"], equations=["s", "tm"])
+        per = []
+        for _ in range(n + 2):
+            r = bb.run_step()
+            per.append("stop" if (r is None or "msg" in r) else labels(r["smR"]["sc"]["tm"].keys()))
+        bb.end_session()
+        out["session"] = ";".join(per)
+        out["run-after-session"] = frame(bb.run_scenarios(scenario_managers=["smR"], scenarios=["sc"], equations=["s", "tm"], series_names={}))
+    finally:
+        b.__exit__()
+    return out
+
+
+def runspecs_expected(mspec, rs):
+    S, E, H = rs_effective(mspec, rs)
+    n = int((D(E) - D(S)) / D(H))
+    g = grid(S, H, n)
+    mg = grid(mspec[0], mspec[2], int((D(mspec[1]) - D(mspec[0])) / D(mspec[2])))
+    return {"run1": ",".join(g), "run2": ",".join(g), "plot1": ",".join(g), "run-after-session": ",".join(g),
+            "base": ",".join(mg), "session": ";".join(g + ["stop"])}
+
+
 # ----------------------------------------------------------------------------- probes
 def probe():
     facts = {}
@@ -333,23 +417,26 @@ def probe():
     facts["stepClockNormalised"] = per == "0.0;0.1;0.2;0.3;0.4"
     per2, _ = ch_session("0.25", "0.5", 3, 5, mode="default")
     facts["sessionOriginEffective"] = per2 == "0.25;0.75;1.25;1.75;stop"
+    rs = ch_runspecs(("0", "1", "0.25"), {"dt": 0.1})
+    facts["runGridUsesModelDt"] = rs["run1"] == ",".join(grid("0", "0.1", 10))
+    facts["_observed_runspecs"] = {"first run of a scenario with runspecs dt=0.1 on a model with dt=0.25, 0..1": rs["run1"]}
     facts["_observed"] = {"run(0,0.2,0.1)": b["run"], "plot(0,0.2,0.1)": b["plot"], "session(0,0.5,0.1)x5": per,
                           "session(0.25,1.75,0.5)x5 begun without starttime/dt": per2}
     return facts
 
 
 def cfg_bits(f):
-    return "".join("1" if f[k] else "0" for k in ("simBoundInclusive", "plotBoundInclusive", "stepClockNormalised", "sessionOriginEffective"))
+    return "".join("1" if f[k] else "0" for k in ("simBoundInclusive", "plotBoundInclusive", "stepClockNormalised", "sessionOriginEffective", "runGridUsesModelDt"))
 
 
 def gen_lean(f):
     tf = lambda v: "true" if v else "false"
-    good = f["simBoundInclusive"] and f["plotBoundInclusive"] and f["stepClockNormalised"] and f["sessionOriginEffective"]
+    good = f["simBoundInclusive"] and f["plotBoundInclusive"] and f["stepClockNormalised"] and f["sessionOriginEffective"] and f["runGridUsesModelDt"]
     head = ("import Bptk.Props.C05\nimport Bptk.Props.C01Grid\n/-! GENERATED by harness/props/c05.py from /repo on every run — do not edit. -/\n"
             "namespace Bptk.C05.Gen\n"
             f"def cfg : Cfg := {{ simBoundInclusive := {tf(f['simBoundInclusive'])}, "
             f"plotBoundInclusive := {tf(f['plotBoundInclusive'])}, stepClockNormalised := {tf(f['stepClockNormalised'])}, "
-            f"sessionOriginEffective := {tf(f['sessionOriginEffective'])} }}\n")
+            f"sessionOriginEffective := {tf(f['sessionOriginEffective'])}, runGridUsesModelDt := {tf(f['runGridUsesModelDt'])} }}\n")
     if good:
         body = ("theorem holds : C05_full cfg := C05_full_of_good cfg (by decide)\n#print axioms holds\n"
                 "-- C01 x C05 bridge (Props/C01Grid): every evaluation time of a run is a label of this development's grid\n"
@@ -371,6 +458,9 @@ def gen_lean(f):
         if not f["sessionOriginEffective"]:
             body += ("theorem violated_sessionOrigin : ¬ C05_full cfg := C05_witness_sessionOrigin cfg (by decide)\n"
                      "#print axioms violated_sessionOrigin\n")
+        if not f["runGridUsesModelDt"]:
+            body += ("theorem violated_runGrid : ¬ C05_full cfg := C05_witness_runGrid cfg (by decide)\n"
+                     "#print axioms violated_runGrid\n")
         body += "#print axioms C05_partial\n"
     body += "#print axioms Bptk.C01.C01_full_decimal_dt\n#print axioms Bptk.C01.stock_euler_decimal\n"
     return head + body + "end Bptk.C05.Gen\n"
@@ -409,6 +499,10 @@ def check_channel(channel, start, dt, n, calls=None, mode="explicit"):
         obs = ";".join("/".join(f"{fresh[r][k][0]}:{fresh[r][k][1]}" for r in range(3)) for k in range(n + 1))
         exp = ";".join("/".join([f"{fbits(float(g[k]))}:{fresh[0][k][1]}"] * 3) for k in range(n + 1))
         return obs, exp
+    if channel.startswith("runspecs:"):
+        mspec, rs = RUNSPEC_CASES[n]
+        what = channel.split(":", 1)[1]
+        return ch_runspecs(mspec, rs)[what], runspecs_expected(mspec, rs)[what]
     if channel == "elems":
         rows = ch_elems(start, dt, n)
         obs = ";".join(f"{kind}{'(' + extra + ')' if extra else ''}@{k}/{rn}={o}" for kind, extra, k, rn, t, o in rows)
@@ -423,7 +517,10 @@ def check_channel(channel, start, dt, n, calls=None, mode="explicit"):
     raise ValueError(channel)
 
 
-KEYS = {"elems": "route-dependent-value", "reqset": "requested-set-dependent-value",
+KEYS = {"runspecs:run1": "run-grid-stale-runspecs", "runspecs:run2": "run-grid-stale-runspecs", "runspecs:plot1": "run-grid-stale-runspecs",
+        "runspecs:run-after-session": "run-grid-stale-runspecs", "runspecs:base": "run-grid-stale-runspecs",
+        "runspecs:session": "session-clock-drift",
+        "elems": "route-dependent-value", "reqset": "requested-set-dependent-value",
         "timerange-incl": "timerange-labels", "timerange-excl": "timerange-labels", "run": "sim-bound-overshoot",
         "plotsc": "sim-bound-overshoot", "plot": "plot-bound-overshoot", "session": "session-clock-drift",
         "session-log": "session-clock-drift", "routes": "route-dependent-value"}
@@ -447,6 +544,7 @@ def run(chk):
     ok, why = chk.prove(gen_lean(facts), extra_sources=["Bptk/Props/C01Grid.lean"])
     chk.cov["trusted_base"] = [
         "Lean 4.33 kernel; axioms propext, Classical.choice, Quot.sound (audited per run via #print axioms); `decide +kernel` on Float literals only in the two Float witnesses",
+        "(wave 6) which dt the grid of a run is generated with (`runTimesRS`: `mod.dt` after change_runspecs vs the copy SdSimulation.__init__ took) is a probed Cfg fact",
         "hand-written model lean/Bptk/Core/C05.lean of util.floating_point (precision_and_scale, normalize, timerange), Model.memoize key and evaluation AT the key (TIME, thresholds, the stock recursion t <= starttime / t-dt), SdSimulation.__simulate / Element.plot bound, bptk.run_step clock; tied to /repo by three probes and the exhaustive lattice correspondence of this check",
         "floating point enters the theorems as an arbitrary rounding function with relative error <= u (hypothesis); that IEEE-754 double rounding satisfies it with u = 2^-53, that CPython's round(x, n) is the correctly rounded half-even decimal rounding of the exact binary value, that int->float conversion of the step count is exact (< 2^53), and that repr of the double nearest to a decimal of <= 15 significant digits prints that decimal",
         "precision_and_scale is modelled in exact arithmetic on the decimal value; on doubles the code computes the same digits as long as |x| has at most 14 significant decimal digits (validated on the sample list and the lattice, not proved)",
@@ -464,7 +562,9 @@ def run(chk):
                        "Wave 2 stream `elems`: TIME, IF(TIME>=grid point j) for j = k-1,k,k+1, a stock and a stock of that stock, asked for at grid point k "
                        "through six float routes (label, i*dt, repeated +, t-dt, t-dt-dt, t+dt) each on an EMPTY memo (reset_cache), plus reads after `total` "
                        "was evaluated first; pairs (start, dt, n) incl. start 0.3 / dt 0.1, 1/0.7, 0.05/0.3, 1000.1/0.001 "
-                       "(thorough: all starts + 0.3 x all dts, n = 20); stream `reqset`: run_scenarios with equations in "
+                       "(thorough: all starts + 0.3 x all dts, n = 20); stream `runspecs` (wave 6): ten scenarios whose run specs override the model's dt / start / stop "
+                       "(int and float values): first and second run_scenarios, plot_scenarios, session, run after the session, labels against the Decimal grid of "
+                       "the scenario's run specs; stream `reqset`: run_scenarios with equations in "
                        f"{REQ_SETS} on fresh models, every column bit-identical to the Euler solution on the decimal grid")
     chk.cov["exhaustive"] = True
     req, real, meta = [], [], []      # protocol lines, implementation's answers, (channel,start,dt,n)
@@ -507,6 +607,20 @@ def run(chk):
                 {"requested": d[0]})
         dist["reqset_runs"] += len(REQ_SETS)
         chk.case(("reqset", start, dt, n), nontrivial=True)
+    # --- wave 6: scenario-level run specs (dt / start / stop differing from the model's; first and second run)
+    dist["runspec_cases"] = 0
+    for ci, (mspec, rs) in enumerate(RUNSPEC_CASES):
+        S_, E_, H_ = rs_effective(mspec, rs)
+        obs, exp = ch_runspecs(mspec, rs), runspecs_expected(mspec, rs)
+        add(f"simrs {cb} {S_} {E_} {mspec[2]} {H_}", obs["run1"], ("runspecs:run1", S_, H_, ci))
+        add(f"sim {cb} {S_} {E_} {H_}", obs["run2"], ("runspecs:run2", S_, H_, ci))
+        add(f"session {cb} {S_} {E_} {H_} {len(exp['session'].split(';'))}", obs["session"], ("runspecs:session", S_, H_, ci))
+        for what in ("run1", "run2", "plot1", "session", "run-after-session", "base"):
+            ref("runspecs:" + what, S_, H_, ci, obs[what], exp[what], {"model_runspecs": list(mspec), "scenario_runspecs": rs})
+            chk.case(("runspecs", what, ci), nontrivial=True,
+                     sample=(f"first run of a scenario with run specs {rs} on a model built with {mspec}: {obs[what][:70]}"
+                             if (what, ci) == ("run1", 0) else None))
+        dist["runspec_cases"] += 1
     sess_subset = [0, 1, 2, 3, 7, 8, 12] if chk.quick else list(range(0, 41)) + [57, 100, 143]
     budget_hit = False
     all_pairs = [(st, d_) for st in STARTS for d_ in DTS] + EXTRA_PAIRS
@@ -605,7 +719,7 @@ def run(chk):
         diff = min(len(model), len(real))
     # --- decide
     for key, (channel, start, dt, n, obs, exp, extra) in ref_fail.items():
-        fd = first_diff(obs, exp, ";" if (channel.startswith("session") and channel != "session-log") or channel in ("elems", "reqset") else ",")
+        fd = first_diff(obs, exp, ";" if (channel.startswith("session") and channel != "session-log") or channel in ("elems", "reqset", "runspecs:session") else ",")
         rp = {"channel": channel, "start": start, "dt": dt, "n": n, "observed": obs[:600], "expected": exp[:600],
               "first_difference": fd}
         rp.update(extra or {})
